@@ -380,6 +380,11 @@ fn rand_text(rng: &mut ChaCha8Rng, specials: &[String], maxlen: usize) -> String
     ];
     let n = rng.random_range(0..=maxlen);
     let mut s = String::new();
+    // one text in eight is pure ASCII with CR LF (one character in grapheme mode): byte-wise fast paths
+    if rng.random_bool(0.125) {
+        let ascii = ["a", "b", " ", "\r\n", "\r\n", "\n", "\r", "<", "\t", "0"];
+        return (0..n).map(|_| ascii[rng.random_range(0..ascii.len())]).collect();
+    }
     for _ in 0..n {
         if !specials.is_empty() && rng.random_bool(0.15) {
             let t = &specials[rng.random_range(0..specials.len())];
